@@ -1000,6 +1000,33 @@ def run(ctx: Any, prog: Program) -> None:
                 ctx.check('C06.V29', ok29, vm, node29, f'{q29} puts `{U(src29)[:50]}` into the map\'s group table while parsing: only `group` blocks define groups - a made-up entry takes the id (and the place in the export '
                           'order) of the block that defines it later in the file', func=q29, text=f'{q29}: group table entry comes from a group block')
     ctx.shape('C06.V29', n29 >= 1, vm, vm.tree, 'no store into VMF.groups found in the parse functions (Entity.parse confirmed by hand)', text='group table stores')
+    # ---- V30: settings read from the file are kept when they are 0 / False ---------------------------------------------------------------------
+    # VMF.parse hands the view and version settings of the file to VMF.__init__ as keyword arguments, which go through `_mapinfo_int/_bool`.
+    # `return value or default` there replaces a 0 or False read from the file by the (truthy) default: `bSnapToGrid 0` comes back as 1.
+    ctx.rule('C06.V30', 'a numeric or boolean setting passed to the VMF constructor is only replaced by its default when it is None', floor=2)
+    n30 = 0
+    for q30, fl30 in vm.all_funcs().items():
+        if '.' in q30 or not q30.startswith('_mapinfo'):
+            continue
+        for f30 in fl30:
+            n30 += 1
+            prm30 = {a.arg for a in f30.args.args}
+            ors = [b for b in ast.walk(f30) if isinstance(b, ast.BoolOp) and isinstance(b.op, ast.Or) and isinstance(b.values[0], ast.Name) and b.values[0].id in prm30]
+            ctx.check('C06.V30', not ors, vm, ors[0] if ors else f30, f'{q30} computes `{U(ors[0])[:40] if ors else ""}`: a setting of 0 or False given by the caller (the value VMF.parse read from the file) is falsy and is replaced '
+                      'by the default - the parsed map has another value than the file, and exporting it changes the text', func=q30, text=f'{q30}: a given 0 / False is kept')
+    ctx.shape('C06.V30', n30 >= 2, vm, vm.tree, f'{n30} _mapinfo_* helpers found in vmf.py (_mapinfo_int and _mapinfo_bool confirmed by hand)', text='setting helpers')
+    # ---- V31: the visgroup tree is written whatever the options ------------------------------------------------------------------------------------
+    # brushes and entities carry visgroup *ids*; the names, colours and nesting live in the `visgroups` block.  `minimal=True` leaves out the
+    # view settings, cameras and cordons - not the tree, without which the ids of the re-read map refer to nothing.
+    ctx.rule('C06.V31', 'VMF.export writes the visgroups block unconditionally', floor=1)
+    vex = vm.func('VMF.export')
+    visw = [c for c in ast.walk(vex) if isinstance(c, ast.Call) and isinstance(c.func, ast.Attribute) and c.func.attr == 'write' and c.args and isinstance(c.args[0], ast.Constant) and isinstance(c.args[0].value, str)
+            and c.args[0].value.startswith('visgroups')]
+    ctx.shape('C06.V31', len(visw) == 1, vm, vex, 'the write that opens the visgroups block was not found once in VMF.export', func='VMF.export', text='visgroups block written')
+    for w31 in visw:
+        conds = [a for a in _anc06(vm, w31, vex) if isinstance(a, (ast.If, ast.IfExp))]
+        ctx.check('C06.V31', not conds, vm, w31, f'VMF.export writes the visgroups block only when `{U(conds[0].test)[:40] if conds else ""}`: with that option the visgroup names, colours and nesting are not in the file while '
+                  'brushes and entities still carry their visgroup ids - the re-read map has an empty tree', func='VMF.export', text='visgroups block written unconditionally')
     ctx.rule('C06.V22', 'the presence test of an optional per-vertex block looks at every per-vertex field the block carries', floor=1)
     ed22 = vm.func('Side._export_displacement')
     n22 = 0
@@ -1672,6 +1699,7 @@ def elt_token_alternatives(elt: ast.AST, tokens_of_type: Dict[str, int]) -> Opti
 
 
 MUTANTS = [
+    {'id': 'visgroups_only_without_minimal', 'file': 'vmf.py', 'find': "        dest_file.write('visgroups\\n{\\n')\n        for vis in self.vis_tree:\n            vis.export(dest_file, ind='\\t')\n        dest_file.write('}\\n')\n", 'replace': "        if not minimal:\n            dest_file.write('visgroups\\n{\\n')\n            for vis in self.vis_tree:\n                vis.export(dest_file, ind='\\t')\n            dest_file.write('}\\n')\n", 'expect': 'C06.V31', 'note': 'round 13'},
     {'id': 'entity_parse_invents_groups', 'file': 'vmf.py', 'find': "                        elif editor_prop.name == 'groupid':\n                            group_ids.append(int(editor_prop.value))", 'replace': "                        elif editor_prop.name == 'groupid':\n                            group_ids.append(int(editor_prop.value))\n                            vmf_file.groups.setdefault(group_ids[-1], EntityGroup(vmf_file, group_ids[-1]))", 'expect': 'C06.V29', 'refuse_ok': True, 'note': 'round 12'},
     {'id': 'solid_vis_shown_coupled_to_hidden', 'file': 'vmf.py', 'find': "            buffer.write(f'{ind}\\t\\t\"visgroupshown\" \"{srctools.bool_as_int(self.vis_shown)}\"\\n')\n            buffer.write(f'{ind}\\t\\t\"visgroupautoshown\" \"{srctools.bool_as_int(self.vis_auto_shown)}\"\\n')\n            buffer.write(f'{ind}\\t\\t\"logicalpos\"", 'replace': "            buffer.write(f'{ind}\\t\\t\"visgroupshown\" \"{srctools.bool_as_int(self.vis_shown and not self.hidden)}\"\\n')\n            buffer.write(f'{ind}\\t\\t\"visgroupautoshown\" \"{srctools.bool_as_int(self.vis_auto_shown)}\"\\n')\n            buffer.write(f'{ind}\\t\\t\"logicalpos\"", 'expect': 'C06.V28', 'note': 'round 12'},
     {'id': 'comment_unescaped_a_second_time', 'file': 'vmf.py', 'find': "                            comment = editor_prop.value\n", 'replace': "                            comment = editor_prop.value.replace('\\\\n', '\\n')\n", 'expect': 'C06.V24'},
